@@ -36,6 +36,10 @@ func modFileScenarios() []modFileScenario {
 			files:  map[string]string{"state.ugo": state, "lib/user.ugo": "s := import(\"../state.ugo\")\ns.x = 7\nreturn \"user\"\n"},
 			script: "global hits\na := import(\"state.ugo\")\nimport(\"lib/user.ugo\")\nb := import(\"%ROOT%/state.ugo\")\nreturn [hits.n, a.x, b.x]",
 			want:   "[1, 7, 7]"},
+		{name: "absolute-name-not-clean",
+			files:  map[string]string{"state.ugo": state, "sub/x.ugo": "return 1\n"},
+			script: "global hits\na := import(\"state.ugo\")\nb := import(\"%ROOT%/sub/../state.ugo\")\nc := import(\"%ROOT%//state.ugo\")\nd := import(\"%ROOT%/./state.ugo\")\na.x = 9\nreturn [hits.n, b.x, c.x, d.x]",
+			want:   "[1, 9, 9, 9]"},
 		{name: "empty-workdir", workDir: "-empty-",
 			files:  map[string]string{"state.ugo": state},
 			script: "global hits\na := import(\"state.ugo\")\nb := import(\"%ROOT%/state.ugo\")\na.x = 3\nreturn [hits.n, b.x]",
